@@ -345,6 +345,90 @@ def run(fx, tier):
                 'filters are size-checked first', key='C16:R-TABLE:validate_topic_filter:size-rule', where=g.file)
         break
 
+    # Value ranges — decided on the branch structure of the validators: the comparisons of the value with constants taken
+    # on each path are evaluated at the boundary points; the points that reach the success outcome / an error outcome
+    # must be exactly the admissible / inadmissible ones (any formulation of the comparisons will do)
+    def boundary_outcomes(g, is_value, pts):
+        res = {}
+        n_paths = 0
+        for blocks, abort in g.paths(loop_bound=1):
+            if abort:
+                continue
+            cons = []
+            for k, b_ in enumerate(blocks[:-1]):
+                blk = g.blocks[b_]
+                if not (blk.term and len(blk.succ) == 2):
+                    continue
+                pol = g.edge_kind(b_, blocks[k + 1])
+                cond = g.term_cond(b_)
+                if cond is None or not pol:
+                    continue
+                from flow import split_logical
+                for c2, p2 in split_logical(cond, pol):
+                    cm = comparison(origin(g, c2), p2)
+                    if not cm or cm[0] not in ('<', '<=', '>', '>=', '==', '!='):
+                        continue
+                    op, l_, r_ = cm
+                    cl, cr = _constval(l_), _constval(r_)
+                    if is_value(l_) and cr is not None:
+                        cons.append((op, cr))
+                    elif is_value(r_) and cl is not None:
+                        cons.append(({'<': '>', '<=': '>=', '>': '<', '>=': '<=', '==': '==', '!=': '!='}[op], cl))
+            if not cons:
+                continue
+            n_paths += 1
+            outcome = None
+            for b_ in blocks:
+                for i_ in range(len(g.blocks[b_].elems)):
+                    x = g.resolve({'k': 'elem', 'b': b_, 'i': i_})
+                    if isinstance(x, dict) and x.get('k') == 'ctor' and x.get('cls') == 'error_code':
+                        outcome = 'success' if not x.get('args') else (enum_of(core(x['args'][0])) or 'other')
+                    elif isinstance(x, dict) and x.get('k') == 'ret' and isinstance(g.resolve(x.get('e')), dict) \
+                            and g.resolve(x['e']).get('k') == 'call' and callee_name(g.resolve(x['e'])) not in ('', None) \
+                            and g.resolve(x['e']).get('op') is None:
+                        outcome = 'success'            # delegates the rest of the validation (no error so far)
+            ok_pts = {p_ for p_ in pts if all({'<': p_ < c_, '<=': p_ <= c_, '>': p_ > c_, '>=': p_ >= c_, '==': p_ == c_, '!=': p_ != c_}[o_]
+                                              for o_, c_ in cons)}
+            res.setdefault(outcome, set()).update(ok_pts)
+        return res, n_paths
+
+    def deref_of_prop(name):
+        return lambda x: contains(x, lambda n: n.get('k') == 'call' and n.get('op') == '*') and contains(
+            x, lambda n: n.get('k') == 'ref' and n.get('n') == name)
+    MAXID = 268435455
+    n_sid = 0
+    seen_r = set()
+    for g in fx.functions(cls='subscribe_op', name='validate_props'):
+        if g.tu in seen_r:
+            continue
+        seen_r.add(g.tu)
+        n_sid += 1
+        res, npth = boundary_outcomes(g, deref_of_prop('subscription_identifier'), (-1, 0, 1, 2, MAXID - 1, MAXID, MAXID + 1))
+        acc, rej = res.get('success', set()), res.get('malformed_packet', set())
+        v.check(acc == {1, 2, MAXID - 1, MAXID} and rej == {-1, 0, MAXID + 1} and npth >= 2, 'R-TABLE',
+                'subscribe_op::validate_props:subscription-identifier-range [%s]' % g.tu,
+                'boundary identifiers accepted: %s (MQTT 5: 1 … 268,435,455); rejected as malformed: %s' % (sorted(acc), sorted(rej)),
+                key='C16:R-TABLE:subscription-identifier-comparison', where=g.file)
+    if n_sid == 0:
+        raise AnalysisBroken('subscribe_op::validate_props not found')
+    n_ta = 0
+    seen_r = set()
+    for g in fx.functions(cls='publish_send_op', name='validate_props'):
+        if g.tu in seen_r:
+            continue
+        seen_r.add(g.tu)
+        n_ta += 1
+        res, npth = boundary_outcomes(g, deref_of_prop('topic_alias'), (0, 1, 2, 65535))
+        acc = res.get('success', set()) | res.get(None, set())
+        rej = set().union(*[pts_ for o_, pts_ in res.items() if o_ not in ('success', None)]) if res else set()
+        # paths that compare only with the announced maximum carry no constant constraint; what matters here is the value 0
+        v.check(0 not in acc and 0 in rej and {1, 2, 65535} <= acc, 'R-TABLE',
+                'publish_send_op::validate_props:topic-alias-nonzero [%s]' % g.tu,
+                'Topic Alias 0 is rejected (%s) and never accepted (%s)' % (sorted(rej), sorted(acc)),
+                key='C16:R-TABLE:topic-alias-zero', where=g.file)
+    if n_ta == 0:
+        raise AnalysisBroken('publish_send_op::validate_props not found')
+
     # the size bound applies to the WHOLE argument: the size guard reads the parameter before anything
     # shortens it (remove_prefix / remove_suffix / re-assignment), rejects on failure, and dominates every
     # return that is not `invalid`
@@ -568,3 +652,14 @@ def _reach_blocks(g, b0):
         seen.add(b)
         st += [s_ for s_ in g.blocks[b].succ if s_ is not None]
     return seen
+
+
+def _constval(x):
+    while isinstance(x, dict):
+        if 'c' in x:
+            return x['c']
+        if x.get('k') in ('icast', 'cast', 'local', 'paramof', 'bindof'):
+            x = x.get('e')
+        else:
+            return None
+    return None
